@@ -17,7 +17,8 @@ def main():
     from harness import ckpt
     from harness.h5walk import content_digest
     from nautilus import Sampler
-    path = os.path.join(d, 'ck.h5')
+    # (the directory of the checkpoint need not exist: Sampler.write creates it)
+    path = os.path.join(d, cfg.get('relpath', 'ck.h5'))
     prog = open(os.path.join(d, 'progress.log'), 'a', buffering=1)
     snaps = open(os.path.join(d, 'snapshots.jsonl'), 'a', buffering=1) if mode == 'ref' else None
     state = dict(n=0)
